@@ -796,6 +796,25 @@ func (g *generator) enterNextFinallyFrame() (canContinue bool) {
 }
 
 func (g *generator) step() (res Value, resultType resultType, ex *Exception) {
+	completed := false
+	defer func() {
+		if !completed {
+			// An uncatchable exception (e.g. *InterruptedError) is propagating as a panic, so the callers'
+			// popTryFrame() will not run. Drop the frames of this activation down to and including the marker frame
+			// pushed by enter()/enterNext() (g.tryStackLen was recorded right after pushing it), as the deferred
+			// popTryFrame() in vm.try(), vm.runTry() and __call() does. Otherwise the leftover marker stops the
+			// handleThrow() of the enclosing frame, the call stack is not unwound and the Runtime is left unusable.
+			if l := int(g.tryStackLen) - 1; l >= 0 && l < len(g.vm.tryStack) {
+				g.vm.tryStack = g.vm.tryStack[:l]
+			}
+		}
+	}()
+	res, resultType, ex = g.step1()
+	completed = true
+	return
+}
+
+func (g *generator) step1() (res Value, resultType resultType, ex *Exception) {
 	vm := g.vm
 	if g.returning == nil {
 		for {
